@@ -88,6 +88,40 @@ def local_literal(fnode, name):
     return literal(asg[0][1])
 
 
+def module_literal(fnode, name):
+    """value of a module-level `NAME = <literal>` (bound exactly once) of the
+    module that contains fnode; None when there is none"""
+    m = fnode
+    while m is not None and not isinstance(m, ast.Module):
+        m = getattr(m, '_parent', None)
+    if m is None:
+        return None
+    vals = []
+    for st in m.body:
+        if isinstance(st, ast.Assign):
+            for t in st.targets:
+                if isinstance(t, ast.Name) and t.id == name:
+                    vals.append(st.value)
+        elif isinstance(st, (ast.AugAssign, ast.AnnAssign)) and isinstance(
+                getattr(st, 'target', None), ast.Name) and \
+                st.target.id == name:
+            return None
+    if len(vals) != 1:
+        return None
+    # nothing in the module stores into it / re-binds it elsewhere
+    for x in ast.walk(m):
+        if isinstance(x, ast.Global) and name in x.names:
+            return None
+        if isinstance(x, ast.Subscript) and isinstance(
+                x.ctx, (ast.Store, ast.Del)) and isinstance(
+                x.value, ast.Name) and x.value.id == name:
+            return None
+    try:
+        return literal(vals[0])
+    except Exception:
+        return None
+
+
 def open_mode(fnode, call):
     """Mode string of an open()-like call, 'r' by default, None if it cannot
     be evaluated."""
@@ -101,6 +135,8 @@ def open_mode(fnode, call):
             d = None
             if isinstance(k.value, ast.Name):
                 d = local_literal(fnode, k.value.id)
+                if not isinstance(d, dict):
+                    d = module_literal(fnode, k.value.id)
             elif isinstance(k.value, ast.Dict):
                 d = literal(k.value)
             if not isinstance(d, dict):
@@ -113,6 +149,9 @@ def open_mode(fnode, call):
         return mode.value
     if isinstance(mode, ast.Name):
         v = local_literal(fnode, mode.id)
+        if isinstance(v, str):
+            return v
+        v = module_literal(fnode, mode.id)
         if isinstance(v, str):
             return v
     return None
